@@ -1174,11 +1174,25 @@ fn plan(rng: &mut Rng, thorough: bool) -> Vec<Plan> {
     plans
 }
 
-fn parse_replay(ops: &[String]) -> Vec<Plan> {
-    let mut plans: Vec<Plan> = Vec::new();
+fn parse_replay(ops: &[String]) -> Vec<AnyPlan> {
+    let mut plans: Vec<AnyPlan> = Vec::new();
     for l in ops {
         let w = words(l);
         match w.first().copied() {
+            Some("rx") if w.len() >= 4 => {
+                if w[2] == "reset" {
+                    plans.push(AnyPlan::Rx(RxPlan { g: plans.len(), entry: Entry::parse(w[3]).expect("entry"), steps: vec![] }));
+                } else if let Some(AnyPlan::Rx(p)) = plans.last_mut() {
+                    let c: usize = w[3].parse().unwrap_or(0);
+                    let step = match w[2] {
+                        "open" => RxStep::Open { c, keys: if w.get(4).copied().unwrap_or("-") == "-" { vec![] } else { w[4].split(',').map(|s| s.to_string()).collect() } },
+                        "alias" => RxStep::Alias { c, off: w.get(4) == Some(&"off"), key: w.get(5).unwrap_or(&"").to_string() },
+                        "late" => RxStep::Late { c, key: w.get(4).unwrap_or(&"").to_string() },
+                        _ => RxStep::Close { c, cause: w.get(4).unwrap_or(&"drop").to_string() },
+                    };
+                    p.steps.push(step);
+                }
+            }
             Some("group") if w.len() >= 10 => {
                 let cfg = GroupCfg {
                     g: w[1].parse().unwrap_or(0),
@@ -1191,11 +1205,13 @@ fn parse_replay(ops: &[String]) -> Vec<Plan> {
                     mode: w[8].chars().next().unwrap_or('-'),
                     nctx_reg: w[9].parse().unwrap(),
                 };
-                plans.push(Plan { cfg, scens: vec![] });
+                plans.push(AnyPlan::Life(Plan { cfg, scens: vec![] }));
             }
-            Some("scen") if w.len() >= 8 && !plans.is_empty() => {
-                let notif = if w[4] == "-" { vec![] } else { w[4].split(',').map(|x| x.parse().unwrap_or(0)).collect() };
-                plans.last_mut().unwrap().scens.push(Scen { idx: w[1].into(), phase: w[2].into(), cause: w[3].into(), notif, at: w[5].parse().ok(), nreq: w[6].parse().unwrap_or(0) });
+            Some("scen") if w.len() >= 8 => {
+                if let Some(AnyPlan::Life(p)) = plans.last_mut() {
+                    let notif = if w[4] == "-" { vec![] } else { w[4].split(',').map(|x| x.parse().unwrap_or(0)).collect() };
+                    p.scens.push(Scen { idx: w[1].into(), phase: w[2].into(), cause: w[3].into(), notif, at: w[5].parse().ok(), nreq: w[6].parse().unwrap_or(0) });
+                }
             }
             _ => {}
         }
@@ -1203,15 +1219,442 @@ fn parse_replay(ops: &[String]) -> Vec<Plan> {
     plans
 }
 
+// ---------------------------------------------------------------------------------------------
+// registry scripts (`rx` op lines): several connections of one server sharing and re-pointing aliases,
+// alias calls from connect hooks, inline and off-reader handlers, and alias calls still in flight
+// while their connection is torn down; after every step the whole registry is queried.
+// ---------------------------------------------------------------------------------------------
+#[derive(Clone, Debug)]
+enum RxStep {
+    Open { c: usize, keys: Vec<String> },
+    Alias { c: usize, off: bool, key: String },
+    Late { c: usize, key: String },
+    Close { c: usize, cause: String },
+}
+impl RxStep {
+    fn text(&self) -> String {
+        match self {
+            RxStep::Open { c, keys } => format!("open {} {}", c, if keys.is_empty() { "-".to_string() } else { keys.join(",") }),
+            RxStep::Alias { c, off, key } => format!("alias {} {} {}", c, if *off { "off" } else { "inline" }, key),
+            RxStep::Late { c, key } => format!("late {} {}", c, key),
+            RxStep::Close { c, cause } => format!("close {} {}", c, cause),
+        }
+    }
+}
+
+struct RxPlan {
+    g: usize,
+    entry: Entry,
+    steps: Vec<RxStep>,
+}
+
+#[derive(Debug)]
+enum RxEvt {
+    Opened(usize, Vec<bool>),
+    Closed(usize),
+    LateEntered(usize),
+    LateDone(usize, bool),
+}
+
+struct Rx {
+    reg: PeerRegistry,
+    establishing: Mutex<Option<(usize, Vec<String>)>>,
+    conn_of: Mutex<HashMap<u64, usize>>,
+    id_of: Mutex<HashMap<usize, u64>>,
+    ev: UnboundedSender<RxEvt>,
+    unknown: AtomicU64,
+}
+
+/// A key whose conversion to `String` (performed by `PeerRegistry::alias` itself) returns only once the
+/// peer has left the registry: pins "an alias call is in flight while the connection is torn down".
+struct LateKey {
+    reg: PeerRegistry,
+    id: PeerId,
+    key: String,
+}
+impl From<LateKey> for String {
+    fn from(k: LateKey) -> String {
+        let t0 = Instant::now();
+        while k.reg.get(k.id).is_some() && t0.elapsed() < WD * 3 {
+            std::thread::sleep(Duration::from_millis(1));
+        }
+        k.key
+    }
+}
+
+fn rx_server(rx: &Arc<Rx>) -> WebSocketServer {
+    let (r1, r2, r3, r4, r5) = (rx.clone(), rx.clone(), rx.clone(), rx.clone(), rx.clone());
+    let conn = |rx: &Rx, ctx: &CallContext| ctx.peer().map(|p| p.peer_id()).and_then(|id| rx.conn_of.lock().unwrap().get(&id.0).copied().map(|c| (id, c)));
+    let alias_handler = move |rx: &Arc<Rx>, ctx: &CallContext, v: Value| -> Result<Value, (ErrorCode, String)> {
+        let Some((id, _c)) = conn(rx, ctx) else { return Ok(json!("unknown-peer")) };
+        let key = v.get("key").and_then(|k| k.as_str()).unwrap_or("").to_string();
+        Ok(json!(rx.reg.alias(id, key)))
+    };
+    let ah = alias_handler.clone();
+    let router = Router::new()
+        .with_json_ctx("/alias", move |ctx: &CallContext, v: Value| ah(&r1, ctx, v))
+        .with_json_ctx_blocking("/aliasoff", move |ctx: &CallContext, v: Value| alias_handler(&r2, ctx, v))
+        .with_json_ctx_blocking("/late", move |ctx: &CallContext, v: Value| {
+            let Some((id, c)) = conn(&r3, ctx) else { return Ok(json!("unknown-peer")) };
+            let key = v.get("key").and_then(|k| k.as_str()).unwrap_or("").to_string();
+            let _ = r3.ev.send(RxEvt::LateEntered(c));
+            let ret = r3.reg.alias(id, LateKey { reg: r3.reg.clone(), id, key });
+            let _ = r3.ev.send(RxEvt::LateDone(c, ret));
+            Ok(json!(ret))
+        });
+    WebSocketServer::new(router)
+        .with_peer_registry(rx.reg.clone())
+        .on_peer_connect(move |peer: PeerHandle| {
+            let id = peer.peer_id();
+            let Some((c, keys)) = r4.establishing.lock().unwrap().take() else {
+                r4.unknown.fetch_add(1, Ordering::SeqCst);
+                return;
+            };
+            r4.conn_of.lock().unwrap().insert(id.0, c);
+            r4.id_of.lock().unwrap().insert(c, id.0);
+            let rets = keys.into_iter().map(|k| r4.reg.alias(id, k)).collect();
+            let _ = r4.ev.send(RxEvt::Opened(c, rets));
+        })
+        .on_peer_disconnect(move |id: PeerId| match r5.conn_of.lock().unwrap().get(&id.0).copied() {
+            Some(c) => {
+                let _ = r5.ev.send(RxEvt::Closed(c));
+            }
+            None => {
+                r5.unknown.fetch_add(1, Ordering::SeqCst);
+            }
+        })
+}
+
+/// Send a request and return the JSON body of its response.
+async fn rx_call(ws: &mut Ws, id: u64, path: &str, body: &Value) -> Result<Value, String> {
+    ws.send(request(id, path, body, false)).await.map_err(|e| format!("send {path} {e}"))?;
+    let deadline = tokio::time::Instant::now() + WD;
+    loop {
+        match tokio::time::timeout_at(deadline, ws.next()).await {
+            Err(_) => return Err(format!("{path}-response-watchdog")),
+            Ok(Some(Ok(WsMsg::Binary(b)))) => {
+                if let Some((f, _)) = RawFrame::parse_prefix(&b) {
+                    if f.h.notify == 0 && f.h.id == id {
+                        return serde_json::from_slice(&f.body).map_err(|e| format!("{path}-response-body {e}"));
+                    }
+                }
+            }
+            Ok(Some(Ok(_))) => {}
+            Ok(_) => return Err(format!("{path}-connection-ended")),
+        }
+    }
+}
+
+async fn rx_wait(rx: &mut UnboundedReceiver<RxEvt>, closed: &mut BTreeMap<usize, u32>, mut pred: impl FnMut(&RxEvt) -> bool) -> Option<RxEvt> {
+    let deadline = tokio::time::Instant::now() + WD;
+    loop {
+        match tokio::time::timeout_at(deadline, rx.recv()).await {
+            Ok(Some(e)) => {
+                if let RxEvt::Closed(c) = &e {
+                    *closed.entry(*c).or_default() += 1;
+                }
+                if pred(&e) {
+                    return Some(e);
+                }
+            }
+            _ => return None,
+        }
+    }
+}
+
+async fn run_rx(plan: RxPlan, server_rt: &tokio::runtime::Runtime, out: &Mutex<Out>) {
+    let (ev_tx, mut ev_rx) = unbounded_channel();
+    let rx = Arc::new(Rx { reg: PeerRegistry::new(), establishing: Mutex::new(None), conn_of: Mutex::new(HashMap::new()), id_of: Mutex::new(HashMap::new()), ev: ev_tx, unknown: AtomicU64::new(0) });
+    let server = rx_server(&rx);
+    let h = server_rt.handle().clone();
+    let mut addr = None;
+    let mut shared: Option<SharedWebSocketServer> = None;
+    let mut server_task = None;
+    if plan.entry != Entry::Adopt {
+        let l = std::net::TcpListener::bind("127.0.0.1:0").expect("bind");
+        l.set_nonblocking(true).unwrap();
+        addr = Some(l.local_addr().unwrap());
+        if plan.entry == Entry::Listener {
+            server_task = Some(h.spawn(async move {
+                let l = tokio::net::TcpListener::from_std(l).unwrap();
+                let _ = server.serve_listener(l, "/repe").await;
+            }));
+        } else {
+            let sh = server.into_shared();
+            server_task = Some(h.spawn(async move {
+                let l = tokio::net::TcpListener::from_std(l).unwrap();
+                loop {
+                    let Ok((stream, _)) = l.accept().await else { break };
+                    let sh = sh.clone();
+                    tokio::spawn(async move {
+                        if let Ok(ws) = sh.accept(stream, "/repe").await {
+                            let _ = sh.serve_connection(ws).await;
+                        }
+                    });
+                }
+            }));
+        }
+    } else {
+        shared = Some(server.into_shared());
+    }
+
+    let reset = format!("rx {}.r reset {}", plan.g, plan.entry.name());
+    let lines: Vec<String> = plan.steps.iter().enumerate().map(|(i, s)| format!("rx {}.{} {}", plan.g, i, s.text())).collect();
+    let mut replay = vec![reset.clone()];
+    replay.extend(lines.iter().cloned());
+
+    let mut clients: HashMap<usize, Ws> = HashMap::new();
+    let mut closed: BTreeMap<usize, u32> = BTreeMap::new();
+    // the harness's own reading of the history: who owns which key, who is connected
+    let mut owner: BTreeMap<String, usize> = BTreeMap::new();
+    let mut keys_used: std::collections::BTreeSet<String> = Default::default();
+    let mut conns: std::collections::BTreeSet<usize> = Default::default();
+    let mut alive: std::collections::BTreeSet<usize> = Default::default();
+    let mut late: BTreeMap<usize, String> = BTreeMap::new();
+    let mut next_req: u64 = 100;
+    let mut obs: Vec<String> = Vec::new();
+    let mut fails: Vec<(String, String, usize)> = Vec::new();
+    let mut broken: Option<String> = None;
+
+    for (i, step) in plan.steps.iter().enumerate() {
+        let idx = format!("{}.{}", plan.g, i);
+        let mut rets: Vec<bool> = Vec::new();
+        let r: Result<(), String> = async {
+            match step {
+                RxStep::Open { c, keys } => {
+                    *rx.establishing.lock().unwrap() = Some((*c, keys.clone()));
+                    let ws: Ws = if let Some(sh) = &shared {
+                        let (cio, sio) = tokio::io::duplex(64 * 1024);
+                        let sh = sh.clone();
+                        h.spawn(async move {
+                            let sws = sh.adopt_upgraded(sio).await;
+                            let _ = sh.serve_connection(sws).await;
+                        });
+                        let b: BoxIo = Box::new(cio);
+                        WebSocketStream::from_raw_socket(b, Role::Client, None).await
+                    } else {
+                        let s = tokio::time::timeout(WD, tokio::net::TcpStream::connect(addr.unwrap())).await.map_err(|_| "tcp-connect-watchdog")?.map_err(|e| e.to_string())?;
+                        let b: BoxIo = Box::new(s);
+                        let (w, _) = tokio::time::timeout(WD, tokio_tungstenite::client_async(format!("ws://{}/repe", addr.unwrap()), b)).await.map_err(|_| "ws-handshake-watchdog")?.map_err(|e| e.to_string())?;
+                        w
+                    };
+                    clients.insert(*c, ws);
+                    match rx_wait(&mut ev_rx, &mut closed, |e| matches!(e, RxEvt::Opened(cc, _) if cc == c)).await {
+                        Some(RxEvt::Opened(_, r)) => rets = r,
+                        _ => return Err("connect-callback-watchdog".into()),
+                    }
+                    conns.insert(*c);
+                    alive.insert(*c);
+                    for (k, ok) in keys.iter().zip(&rets) {
+                        keys_used.insert(k.clone());
+                        if *ok {
+                            owner.insert(k.clone(), *c);
+                        }
+                    }
+                }
+                RxStep::Alias { c, off, key } => {
+                    let ws = clients.get_mut(c).ok_or("no such connection")?;
+                    next_req += 1;
+                    let v = rx_call(ws, next_req, if *off { "/aliasoff" } else { "/alias" }, &json!({ "key": key })).await?;
+                    let ok = v.as_bool().ok_or(format!("alias answered {v}"))?;
+                    rets.push(ok);
+                    keys_used.insert(key.clone());
+                    if ok {
+                        owner.insert(key.clone(), *c);
+                    }
+                }
+                RxStep::Late { c, key } => {
+                    let ws = clients.get_mut(c).ok_or("no such connection")?;
+                    next_req += 1;
+                    ws.send(request(next_req, "/late", &json!({ "key": key }), false)).await.map_err(|e| e.to_string())?;
+                    if rx_wait(&mut ev_rx, &mut closed, |e| matches!(e, RxEvt::LateEntered(cc) if cc == c)).await.is_none() {
+                        return Err("late-handler-watchdog".into());
+                    }
+                    keys_used.insert(key.clone());
+                    late.insert(*c, key.clone());
+                }
+                RxStep::Close { c, cause } => {
+                    let mut ws = clients.remove(c).ok_or("no such connection")?;
+                    match cause.as_str() {
+                        "drop" => drop(ws),
+                        other => {
+                            if other == "close" {
+                                let _ = ws.send(WsMsg::Close(None)).await;
+                            } else {
+                                let _ = ws.send(WsMsg::Binary(vec![9, 9, 9])).await;
+                            }
+                            let mut sink = Vec::new();
+                            let _ = read_frames(&mut ws, &mut sink, |_| false).await;
+                        }
+                    }
+                    let before = closed.get(c).copied().unwrap_or(0);
+                    if before == 0 && rx_wait(&mut ev_rx, &mut closed, |e| matches!(e, RxEvt::Closed(cc) if cc == c)).await.is_none() {
+                        fails.push(("lifecycle.disconnect.missing".into(), format!("disconnect callback of connection {c} not invoked within {WD:?}"), i));
+                        return Err("disconnect-watchdog".into());
+                    }
+                    alive.remove(c);
+                    owner.retain(|_, o| o != c);
+                    if let Some(key) = late.remove(c) {
+                        match rx_wait(&mut ev_rx, &mut closed, |e| matches!(e, RxEvt::LateDone(cc, _) if cc == c)).await {
+                            Some(RxEvt::LateDone(_, ok)) => {
+                                rets.push(ok);
+                                if ok {
+                                    fails.push(("lifecycle.registry.alias_accepted_after_disconnect".into(), format!("alias({c}, {key}) in flight while connection {c} ended returned true after the disconnect callbacks had run"), i));
+                                }
+                            }
+                            _ => return Err("late-alias-watchdog".into()),
+                        }
+                    }
+                }
+            }
+            Ok(())
+        }
+        .await;
+        if let Err(e) = r {
+            broken = Some(e);
+            break;
+        }
+        // ---- query everything: every key ever used, every connection ever opened ----
+        let id_of = rx.id_of.lock().unwrap().clone();
+        let conn_of = rx.conn_of.lock().unwrap().clone();
+        let mut by = Vec::new();
+        for k in &keys_used {
+            let got = rx.reg.get_by(k.as_str()).map(|h| h.peer_id().0);
+            let gc = got.and_then(|id| conn_of.get(&id).copied());
+            by.push(format!("{}:{}", k, gc.map(|c| c.to_string()).unwrap_or(if got.is_some() { "?".into() } else { "-".into() })));
+            let want = owner.get(k).copied().filter(|c| alive.contains(c));
+            if gc != want || (got.is_some() && gc.is_none()) {
+                let sig = if want.is_some() && gc.is_none() { "lifecycle.registry.alias_lost" } else { "lifecycle.registry.alias_wrong_owner" };
+                fails.push((sig.into(), format!("get_by({k}) resolves to connection {gc:?}, but the key was last assigned to {:?} and the connected peers are {alive:?}", owner.get(k)), i));
+            }
+        }
+        let mut ps = Vec::new();
+        for c in &conns {
+            let id = PeerId(id_of[c]);
+            let present = rx.reg.get(id).is_some();
+            let al = rx.reg.aliases_for(id);
+            let kf = rx.reg.key_for(id);
+            ps.push(format!("{}:{}:{}:{}", c, present as u8, if al.is_empty() { "-".to_string() } else { al.join("+") }, kf.clone().unwrap_or("-".into())));
+            if !alive.contains(c) {
+                if present || !al.is_empty() || kf.is_some() {
+                    fails.push(("lifecycle.registry.present_after_disconnect".into(), format!("connection {c} is over (disconnect callbacks ran) but the registry still has: get={present} aliases_for={al:?} key_for={kf:?}"), i));
+                }
+            } else {
+                let mine: std::collections::BTreeSet<&String> = owner.iter().filter(|(_, o)| *o == c).map(|(k, _)| k).collect();
+                let listed: std::collections::BTreeSet<&String> = al.iter().collect();
+                if !present {
+                    fails.push(("lifecycle.registry.absent_while_connected".into(), format!("connection {c} is being served but get() is None"), i));
+                }
+                if mine != listed {
+                    fails.push(("lifecycle.registry.alias_list_mismatch".into(), format!("connected peer {c} owns {mine:?} but aliases_for lists {al:?}"), i));
+                }
+            }
+        }
+        let bits = if rets.is_empty() { "-".to_string() } else { rets.iter().map(|b| if *b { '1' } else { '0' }).collect() };
+        obs.push(format!("{} ret={} by={} peers={}", idx, bits, if by.is_empty() { "-".into() } else { by.join(",") }, if ps.is_empty() { "-".into() } else { ps.join(",") }));
+    }
+    // teardown
+    drop(clients);
+    if let Some(t) = server_task {
+        t.abort();
+    }
+    let mut o = out.lock().unwrap();
+    o.config(&reset);
+    o.count(&format!("rx.entry.{}", plan.entry.name()));
+    if let Some(b) = &broken {
+        o.count(&format!("note.rx.{}", b.split(' ').next().unwrap_or("x")));
+    }
+    for (c, n) in &closed {
+        if *n > 1 {
+            fails.push(("lifecycle.disconnect.duplicate".into(), format!("disconnect callback of connection {c} invoked {n} times"), plan.steps.len().saturating_sub(1)));
+        }
+    }
+    if rx.unknown.load(Ordering::SeqCst) > 0 {
+        fails.push(("lifecycle.callbacks.unattributed".into(), "a callback fired for a peer that is not a connection of the script".into(), plan.steps.len().saturating_sub(1)));
+    }
+    let mut seen = std::collections::BTreeSet::new();
+    for (sig, detail, i) in fails {
+        if seen.insert(sig.clone()) {
+            o.oracle_fail(&sig, &format!("[step {}: {} entry={}] {}", i, lines.get(i).cloned().unwrap_or_default(), plan.entry.name(), detail), &replay);
+        }
+    }
+    for (line, ob) in lines.iter().zip(&obs) {
+        let kind = line.split(' ').nth(2).unwrap_or("x");
+        o.count(&format!("rx.step.{}", kind));
+        o.case(line, ob, true);
+    }
+}
+
+fn plan_rx(rng: &mut Rng, g: usize) -> RxPlan {
+    let entry = *rng.pick(&[Entry::Listener, Entry::Conn, Entry::Adopt]);
+    let mut steps = Vec::new();
+    let mut alive: Vec<usize> = Vec::new();
+    let mut late: Vec<usize> = Vec::new();
+    let mut next_c = 0usize;
+    let mut pool: Vec<String> = vec!["u0".into(), "u1".into(), "u2".into(), "x0".into(), "x1".into()];
+    let n = rng.range(10, 20);
+    for _ in 0..n {
+        let roll = rng.below(100);
+        if (roll < 35 && alive.len() < 5) || alive.is_empty() {
+            // connect hook registering 0-3 aliases: the shared "user" key first, so that a later connection of
+            // the same user takes over a non-newest alias of this one
+            let c = next_c;
+            next_c += 1;
+            let mut keys = Vec::new();
+            if rng.chance(3, 4) {
+                keys.push(format!("u{}", rng.below(3)));
+            }
+            if rng.chance(4, 5) {
+                keys.push(format!("s{}", c));
+                pool.push(format!("s{}", c));
+            }
+            if rng.chance(1, 3) {
+                keys.push(format!("x{}", rng.below(2)));
+            }
+            steps.push(RxStep::Open { c, keys });
+            alive.push(c);
+        } else if roll < 65 {
+            let c = *rng.pick(&alive);
+            steps.push(RxStep::Alias { c, off: rng.chance(1, 2), key: rng.pick(&pool).clone() });
+        } else if roll < 78 {
+            let cand: Vec<usize> = alive.iter().copied().filter(|c| !late.contains(c)).collect();
+            if let Some(c) = cand.first().copied() {
+                let key = if rng.chance(1, 2) { format!("l{}", c) } else { rng.pick(&pool).clone() };
+                steps.push(RxStep::Late { c, key });
+                late.push(c);
+            }
+        } else {
+            let i = rng.below(alive.len() as u64) as usize;
+            let c = alive.remove(i);
+            steps.push(RxStep::Close { c, cause: rng.pick(&["close", "drop", "malformed"]).to_string() });
+        }
+    }
+    while let Some(c) = alive.pop() {
+        steps.push(RxStep::Close { c, cause: rng.pick(&["close", "drop", "malformed"]).to_string() });
+    }
+    RxPlan { g, entry, steps }
+}
+
+enum AnyPlan {
+    Life(Plan),
+    Rx(RxPlan),
+}
+
 fn main() {
     let args = Args::parse();
     quiet_panics();
     let mut out = Out::new(&args.out);
-    out.rule = "one case = one connection driven through (entry × phase × exit cause) on a real server, 1..32 connections per server instance concurrently; every valid combination of the matrix is generated once per round (quick: 4 rounds, thorough: 40) with random hook counts (1-3 plain, 0-2 handshake-aware connect callbacks, 1-3 disconnect callbacks), registry on/off, notifies per connect callback, the callback the connection is held in / that panics; non-trivial = the connection was accepted or its handshake failed as scripted and its callbacks' trace was compared (all cases)".into();
+    out.rule = "one case = one connection driven through (entry × phase × exit cause) on a real server, 1..32 connections per server instance concurrently; every valid combination of the matrix is generated once per round (quick: 4 rounds, thorough: 40) with random hook counts (1-3 plain, 0-2 handshake-aware connect callbacks, 1-3 disconnect callbacks), registry on/off, notifies per connect callback, the callback the connection is held in / that panics; non-trivial = the connection was accepted or its handshake failed as scripted and its callbacks' trace was compared (all cases). Registry scripts (rx lines; quick 60, thorough 600 scripts of 10-25 steps on serve_listener / serve_connection / adopt_upgraded servers with with_peer_registry): up to 5 live connections whose connect hook registers 0-3 aliases (a shared user key first, so later connections take over non-newest aliases), alias calls from inline and off-reader handlers, alias calls kept in flight (key conversion blocks until the peer is removed) while the connection ends by Close / drop / malformed frame; after every step get_by for every key ever used and get / aliases_for / key_for for every connection ever opened are compared with C18's model and with the harness's own reading of the history".into();
     let mut rng = Rng::new(args.seed);
-    let plans = match args.replay_ops() {
+    let plans: Vec<AnyPlan> = match args.replay_ops() {
         Some(ops) => parse_replay(&ops),
-        None => plan(&mut rng, args.thorough()),
+        None => {
+            // registry scripts first (cheap), then the lifecycle matrix
+            let nrx = if args.thorough() { 600 } else { 60 };
+            let mut v: Vec<AnyPlan> = (0..nrx).map(|i| AnyPlan::Rx(plan_rx(&mut rng, 100_000 + i))).collect();
+            v.extend(plan(&mut rng, args.thorough()).into_iter().map(AnyPlan::Life));
+            v
+        }
     };
     let server_rt = tokio::runtime::Builder::new_multi_thread().worker_threads(48).max_blocking_threads(256).enable_all().thread_name("srv").build().unwrap();
     let client_rt = tokio::runtime::Builder::new_multi_thread().worker_threads(4).enable_all().thread_name("cli").build().unwrap();
@@ -1223,12 +1666,17 @@ fn main() {
             if stop.load(Ordering::SeqCst) {
                 break;
             }
-            {
-                let mut o = out.lock().unwrap();
-                o.begin(&p.cfg.line());
-                o.count(&format!("group.size.{}", p.scens.len()));
+            match p {
+                AnyPlan::Life(p) => {
+                    {
+                        let mut o = out.lock().unwrap();
+                        o.begin(&p.cfg.line());
+                        o.count(&format!("group.size.{}", p.scens.len()));
+                    }
+                    run_group(p.cfg, p.scens, &server_rt, &out, settle).await;
+                }
+                AnyPlan::Rx(p) => run_rx(p, &server_rt, &out).await,
             }
-            run_group(p.cfg, p.scens, &server_rt, &out, settle).await;
             // a failing input has been found and recorded with its replay: no need to wait out the watchdogs
             // of every later group
             if out.lock().unwrap().oracle_failures > 0 {
